@@ -6,7 +6,7 @@
     x |-> Derivative(x,1). *)
 From Coq Require Import Reals ZArith List.
 From Coquelicot Require Import Coquelicot.
-From LP Require Import Num NumR C01_Model C01_Proofs.
+From LP Require Import Num NumR C01_Model C01_Proofs C01_Proofs_Table.
 Import ListNotations.
 Local Open Scope R_scope.
 
@@ -186,3 +186,12 @@ Theorem C01_bilinear_reproduces_bilinear xs ys f : valid_grid xs ys f -> forall 
   interpolate2 ROps (grid xs ys f) x y = Ok (A + B * x + C * y + D * x * y).
 Proof. exact (bilinear_reproduces_bilinear xs ys f). Qed.
 Print Assumptions C01_bilinear_reproduces_bilinear.
+
+(** "all rectangular grids for the 2D case", second entry point: the constructor from a data table (rows x, y, f; the code sorts
+    the x and y columns, removes duplicates and requires x-major order).  For the table of a valid grid -- row i N_y + j carries
+    (x_i, y_j, f_ij) -- it builds exactly the object of the grid constructor, with any unit factors, so every 2D theorem above
+    applies to it. *)
+Theorem C01_table_constructor_is_grid_constructor xs ys f xd yd fd : valid_grid xs ys f ->
+  construct2_table ROps (table_of_grid xs ys f) xd yd fd = construct2 ROps xs ys f xd yd fd.
+Proof. exact (table_constructor_grid xs ys f xd yd fd). Qed.
+Print Assumptions C01_table_constructor_is_grid_constructor.
